@@ -164,6 +164,13 @@ func init() {
 			k := Keyed(2, false)
 			k = thin(k, 300)
 			pairs(e, "c04:SETKEYS:id", "K/SETKEYS:id", k, k)
+			kl := KeyedLoose()
+			pairs(e, "c04:SETKEYS:id", "Kloose/SETKEYS:id", kl, kl)
+			// option order must not matter; with integers far apart a small precision changes nothing
+			small := thin(u, 250)
+			for _, o := range []string{"PRECISION:0.001+SET", "SET+PRECISION:0.001", "PRECISION:0.001+MULTISET", "MULTISET+PRECISION:0.001", "PRECISION:0.001+SETKEYS:id", "SETKEYS:id+PRECISION:0.001"} {
+				pairs(e, "c04:"+o, "U-order/"+o, small, small)
+			}
 		},
 		Run:      runC04,
 		Required: func(string) []string { return []string{"equal-by-reading-only", "unequal", "identical"} },
@@ -176,7 +183,7 @@ func runC04(c *engine.Case) engine.Result {
 	o := impl.Options(optOf(c.Kind))
 	aV, bV := ref.MustParse(c.A), ref.MustParse(c.B)
 	var want bool
-	if o.Eps > 0 {
+	if o.Eps > 0 && o.Reading == ref.List {
 		if ref.NearBoundary(aV, bV, o.Eps) {
 			return engine.Result{Bucket: "no-verdict: on the eps boundary"}
 		}
